@@ -226,9 +226,9 @@ func runPoolScenario(c *Ctx) (term string, desc map[string]any, key string, nont
 		}
 	}
 	term = fmt.Sprintf("QPool {| pc_ops := %s; pc_files := %s; pc_isclosed := %s; pc_nopened := %s; pc_closes := %s |}",
-		coqList(ops), coqList(fitems), coqBool(closed), coqNat(st.opened()), coqNatList(st.closeOrdinals()))
+		coqList(ops), coqList(fitems), coqBool(closed), coqNat(st.opened()), qCoqNatList(st.closeOrdinals()))
 	desc = map[string]any{"kind": "pool", "plan": strings.Join(plan, " "), "opened": st.opened(), "closes": len(st.closeOrdinals())}
-	c.dist("pool_ops", bucket(len(ops)))
+	c.dist("pool_ops", qBucket(len(ops)))
 	return term, desc, strings.Join(plan, " "), st.opened() > 0 && len(ops) >= 8
 }
 
